@@ -131,13 +131,13 @@ def owners(self, st=None):
                    z3.Not(det.abs_none(r0).term), det.Len(det.abs_list(r0)).term == 16, z3.Not(det.rel_none(r0).term),
                    z3.ForAll([o], z3.Implies(z3.And(o >= -15, o <= 15, o != 0),
                                              z3.Select(ctx.ex.dict_dom(det.rel_dict(r0), st), o))))
-    return VBool(z3.ForAll([b], z3.Implies(has, z3.And(
+    return VBool(FA([b], z3.Implies(has, z3.And(
         ctx.ex.type_constraint(r0), shape, OWN_B(c0) == b, OWN_K(c0) == 0,
-        z3.ForAll([i], z3.Implies(z3.And(i >= 0, i < 16), z3.And(
+        FA([i], z3.Implies(z3.And(i >= 0, i < 16), z3.And(
             OWN_B(g) == b, OWN_K(g) == 1, OWN_I(g) == i, OWN_B(a) == b, OWN_K(a) == 2, OWN_I(a) == i,
-            ctx.ex.type_constraint(VRef(g, K, ctx.ex)), ctx.ex.type_constraint(VRef(a, K, ctx.ex))))),
-        z3.ForAll([o], z3.Implies(z3.And(o >= -15, o <= 15, o != 0), z3.And(
-            OWN_B(rl) == b, OWN_K(rl) == 3, OWN_I(rl) == o, ctx.ex.type_constraint(VRef(rl, K, ctx.ex)))))))))
+            ctx.ex.type_constraint(VRef(g, K, ctx.ex)), ctx.ex.type_constraint(VRef(a, K, ctx.ex)))), g),
+        FA([o], z3.Implies(z3.And(o >= -15, o <= 15, o != 0), z3.And(
+            OWN_B(rl) == b, OWN_K(rl) == 3, OWN_I(rl) == o, ctx.ex.type_constraint(VRef(rl, K, ctx.ex)))), rl))), c0))
 
 
 def untouched(self, old, new, done_pred, dom=None):
